@@ -642,6 +642,52 @@ class KernelRun:
             for _ in range(r.randint(1, 2)):
                 await self.pop()
 
+    async def duplicate_definition(self):
+        """An attached step is defined a second time by its creator (a copy-pasted line), with the same lists, with
+        more or other outputs, with one of its outputs as an input: every variant is a declaration error."""
+        r = self.r
+        running = await self.q(lambda: self.steps(StepState.RUNNING))
+        if "./plan.py" not in running:
+            return
+        o1, o2, i1 = r.sample(PATHS, 3)
+        out = [o1] if r.random() < 0.6 else [o1, o2]
+        if not (await self.define_explicit("./plan.py", "dup", [], out, Need.DEFAULT)).startswith("ok"):
+            return
+        if r.random() < 0.4:
+            await self.pop()
+        for _ in range(r.randint(1, 3)):
+            variant = r.choice(["same", "more", "other", "none", "own-output-as-input", "subset"])
+            inp2, out2 = [], list(out)
+            if variant == "more":
+                out2 = sorted({*out, o2, i1})
+            elif variant == "other":
+                out2 = [i1]
+            elif variant == "none":
+                out2 = []
+            elif variant == "own-output-as-input":
+                inp2 = [o1]
+            elif variant == "subset":
+                out2 = out[:1]
+            await self.define_explicit("./plan.py", "dup", inp2, out2, Need.DEFAULT)
+
+    async def self_define_detached(self):
+        """A step that is RUNNING and detached (its creator runs again) defines a step with its own command:
+        with the same lists and with other lists; a declaration error in every case, never an internal one."""
+        r, wf = self.r, self.wf
+        running = await self.q(lambda: self.steps(StepState.RUNNING))
+        if "./plan.py" not in running:
+            return
+        o1, o2 = r.sample(PATHS, 2)
+        if not (await self.define_explicit("./plan.py", "selfish", [], [o1], Need.DEFAULT)).startswith("ok"):
+            return
+        if not await self.pop_until("selfish"):
+            return
+        if r.random() < 0.8:
+            await self.step_op("reset_rerun", "./plan.py", fn=lambda: wf.find(Step, "./plan.py").reset_for_rerun())
+        for _ in range(r.randint(1, 2)):
+            out2 = r.choice([[o1], [o2], [], [o1, o2]])
+            await self.define_explicit("selfish", "selfish", [], out2, Need.DEFAULT)
+
     async def shrink_resources(self):
         """A step that requires two resources is detached (its creator runs again) and declared again
         with only one of them, unchanged otherwise (full recycle) or with another output (node reuse)."""
@@ -1201,7 +1247,8 @@ class KernelRun:
 
     SCENARIOS = ("nested_chain", "deferred_wakeup", "resource_race", "detached_completion", "rerole",
                  "amended_consumer_rerun", "hold_recycle", "shrink_resources", "retarget_optional", "cycle_via_detached",
-                 "hold_running_recycled", "deferred_on_detached_input", "plan_need_demotion")
+                 "hold_running_recycled", "deferred_on_detached_input", "plan_need_demotion", "duplicate_definition",
+                 "self_define_detached")
 
     async def generate(self, cm, nops: int, scenario: str | None = None):
         """A history: boot, then (in the well-formed stream) one directed scenario with probability
